@@ -83,6 +83,8 @@ ObjectFns == <<[n |-> <<103,101,116,80,114,111,116,111,116,121,112,101,79,102>>,
 ObjectFnNames == {ObjectFns[i].f : i \in 1..Len(ObjectFns)}
 Id_ObjectFn(i) == 28 + i         \* after the native error constructors and prototypes (17..28)
 Id_Eval == 28 + Len(ObjectFns) + 1
+Id_CB == Id_Eval + 1
+S_CB == <<67, 66>>
 S_defineProperties == <<100,101,102,105,110,101,80,114,111,112,101,114,116,105,101,115>>
 
 ErrorNames == <<S_Error, S_TypeError, S_ReferenceError, S_RangeError, S_SyntaxError, S_EvalError, S_URIError>>
@@ -1170,6 +1172,8 @@ BaseObjects ==
           ELSE [OM!NewObj("Error", ErrorProto) EXCEPT !.fn = [k |-> "error"]]]
     \o [j \in 1..Len(ObjectFns) |-> Builtin(ObjectFns[j].f)]
     \o <<Builtin("eval")>>                                                         \* Id_Eval: the global eval function (15.1.2.1)
+    \o <<[OM!NewObj("Function", FunctionProto) EXCEPT !.fn = [k |-> "hostcb"]]>>   \* Id_CB: the host function CB(f): an API call
+                                                                                  \* (Value.Call) made by Go code while a script runs
 
 RECURSIVE WireNative(_, _)
 WireNative(H, i) ==
@@ -1208,7 +1212,7 @@ Heap0 ==
                                GlobalObj, S_NaN, NumV(NaN), FALSE, FALSE, FALSE),
                        GlobalObj, S_Infinity, NumV(PInf), FALSE, FALSE, FALSE)
         h17 == W(h16, GlobalObj, S_H, ObjV(HostH))
-        h17e == DefData(W(h17, GlobalObj, S_eval, ObjV(Id_Eval)), Id_Eval, S_length, IntV(1), FALSE, FALSE, FALSE)
+        h17e == W(DefData(W(h17, GlobalObj, S_eval, ObjV(Id_Eval)), Id_Eval, S_length, IntV(1), FALSE, FALSE, FALSE), GlobalObj, S_CB, ObjV(Id_CB))
         h18 == DefAll(h17e, GlobalObj, <<S_Function, S_Array, S_String, S_Number, S_Boolean, S_Date, S_RegExp,
                                          S_Math, S_JSON, S_parseInt, S_parseFloat, S_isNaN, S_isFinite, S_console>>, UM)
         RECURSIVE WireObjectFns(_, _)
